@@ -263,6 +263,46 @@ func TestC11(t *testing.T) {
 			c.Sig(fmt.Sprintf("file-rabin-equal-totals|w%d", w), found > 0)
 		})
 	}
+	// the exported package variable builder.BlockSizeLimit lowered by the caller (nothing reads it today;
+	// whatever comes to read it, sizes stay true)
+	for _, lim := range []int{100, 2048} {
+		lim := lim
+		r.Case(fmt.Sprintf("lowered-block-size-limit/%d", lim), map[string]any{"BlockSizeLimit": lim}, func(c *mon.Case) {
+			rr := c.Rand()
+			old := builder.BlockSizeLimit
+			builder.BlockSizeLimit = lim
+			defer func() { builder.BlockSizeLimit = old }()
+			for _, ch := range []string{"size-250", "size-64", "size-3000"} {
+				for _, n := range []int{250, 600, 1000, 7000} {
+					st := store.New()
+					content := gen.Content(rr, "rand", n)
+					var l ipld.Link
+					var sz uint64
+					var err error
+					withWidth(3, func() { l, sz, err = builder.BuildUnixFSFile(bytes.NewReader(content), ch, st.LinkSystem(false)) })
+					if err != nil {
+						c.Count("builds_refused", 1)
+						continue
+					}
+					checkSizes(c, st, linkCid(l), sz, fmt.Sprintf("file w3 %s %d bytes with builder.BlockSizeLimit = %d", ch, n, lim))
+					c.Count("builds_with_lowered_block_size_limit", 1)
+				}
+			}
+			for _, n := range []int{10, 60, 300} {
+				st := store.New()
+				names := gen.Names(rr, gen.FamASCII, n)
+				entries, _, _ := childEntries(st, names)
+				l, sz, err := builder.BuildUnixFSDirectory(entries, st.LinkSystem(false))
+				if err != nil {
+					c.Count("builds_refused", 1)
+					continue
+				}
+				checkSizes(c, st, linkCid(l), sz, fmt.Sprintf("directory of %d entries with builder.BlockSizeLimit = %d", n, lim))
+				c.Count("builds_with_lowered_block_size_limit", 1)
+			}
+			c.Sig(fmt.Sprintf("lowered-block-size-limit|%d", lim), true)
+		})
+	}
 	// a link system whose encoder table knows dag-pb but not raw (a private multicodec registry): the
 	// builder cannot store leaves through it. It may refuse; what it may not do is come back with sizes
 	// that leave the leaves out
